@@ -904,3 +904,24 @@ LEVEL_TEXT = {
 }
 for _k, _v in LEVEL_TEXT.items():
     SPECS[_k]["level_text"] = _v
+
+
+TECHNIQUE = {
+    "C01": "runtime monitoring: planted-copy oracle (positions known by construction) over seeded workloads",
+    "C02": "runtime monitoring: independent word-level Levenshtein oracle and physical-line oracle on every returned match",
+    "C03": "runtime monitoring: invariant checker on every returned Results",
+    "C04": "runtime monitoring: offline comparison of recorded results across 9 processes/configurations + in-process repetition, argument canaries",
+    "C05": "runtime monitoring: metamorphic comparison (presentation transformations)",
+    "C06": "runtime monitoring: metamorphic comparison with token-level known-finding signatures",
+    "C07": "runtime monitoring: metamorphic comparison over seven placements of each text",
+    "C08": "runtime monitoring with fault injection at the io.Reader boundary: every pad width and every failure offset for the selected inputs",
+    "C10": "runtime monitoring: hostile-input workload under recover(), process-death attribution, double-confirmed watchdog",
+    "C11": "runtime monitoring: structural line-alignment oracle + metamorphic comparison, token-level known-finding signatures",
+    "C12": "runtime monitoring: generated directory trees x path spellings, white-box corpus comparison and behavioural equivalence",
+    "C13": "runtime monitoring: offsets known by construction, bounds invariants, one case per goroutine-spawning call in child processes",
+    "C15": "runtime monitoring: differential (archive-loaded vs directly built classifier)",
+    "C16": "runtime monitoring: oracle by construction (file name) over presentation variants + independent threshold invariant",
+    "C19": "runtime monitoring: differential of the CLI child process (plain and -race builds) against in-process Match",
+}
+for _k, _v in TECHNIQUE.items():
+    SPECS[_k]["technique"] = _v
